@@ -5,7 +5,9 @@
   `pypyr/cache/cache.py`), for EVERY schedule (list of thread ids, any number of threads, any
   program of get/clear operations per thread, any creator failure script), at micro-step
   granularity. Helper lemmas: `Props/Lemmas/C13_Inv.lean` (inductive invariant),
-  `C13_Spec.lean` (atomic specification), `C13_SysPath.lean`.
+  `C13_Spec.lean` (atomic specification), `C13_SysPath.lean`, `C13_Stack.lean` (the layers above
+  the caches: `LoaderCache` → `Loader._pipeline_cache` → `file_cache`, `step_cache`, and the
+  `Pipeline` objects that are run again and again across edits and clears — section "Layers").
 
   Histories are newest-first; "`(e :: h) <:+ H`" reads "at the moment `e` happened the history
   was `h`".
@@ -13,6 +15,7 @@
 import Props.Lemmas.C13_Inv
 import Props.Lemmas.C13_Spec
 import Props.Lemmas.C13_SysPath
+import Props.Lemmas.C13_Stack
 
 namespace Pypyr.C13
 open Pypyr.CacheTS
@@ -301,6 +304,207 @@ example : pipelineKey true "/x/a" "b+c" ≠ pipelineKey true "/x/a+b" "c" := by 
 theorem pipelineKey_collision_pre_fix :
     pipelineKeyOld true "/x/a" "b+c" = pipelineKeyOld true "/x/a+b" "c" ∧
     ("/x/a", "b+c") ≠ ("/x/a+b", "c") := by decide
+
+/-! ### the layers above the caches: Pipeline objects re-used across runs, clears and edits
+
+  `CacheTS.Stack`: `LoaderCache` → `Loader._pipeline_cache` → `file_cache`, `step_cache`, and the
+  client objects (`pypyr.pipeline.Pipeline`) whose `pipeline_definition` slot survives from run to
+  run. Sessions are arbitrary lists of runs (any client object, any loader, any request), changes of
+  the world (sources edited, files appearing/disappearing), the five clears and `no_cache` toggles. -/
+section Layers
+open Pypyr.CacheTS.Stack
+
+/-- run a list of operations, forgetting the observations -/
+def execAll (w : World) (st : LState) : List LOp → World × LState
+  | [] => (w, st)
+  | op :: ops => execAll (exec w st op).1 (exec w st op).2.1 ops
+
+def stepAll (f : Flags) : List LOp → Flags
+  | [] => f
+  | op :: ops => stepAll (f.step op) ops
+
+/-- every world of the session answers requests by their cache key -/
+def WorldsOk (w : World) (ops : List LOp) : Prop := WorldOk w ∧ ∀ w', LOp.world w' ∈ ops → WorldOk w'
+
+theorem exec_world_ok {w : World} {st : LState} {op : LOp} {ops : List LOp} (h : WorldsOk w (op :: ops)) :
+    WorldsOk (exec w st op).1 ops := by
+  refine ⟨?_, fun w' hw' => h.2 w' (List.mem_cons_of_mem _ hw')⟩
+  cases op <;> try exact h.1
+  · exact h.2 _ List.mem_cons_self
+  · rename_i ol; cases ol <;> exact h.1
+
+theorem inv_execAll (ops : List LOp) : ∀ (w : World) (st : LState) (f : Flags), Inv w st f → WorldsOk w ops →
+    Inv (execAll w st ops).1 (execAll w st ops).2 (stepAll f ops) := by
+  induction ops with
+  | nil => intro w st f hi _; exact hi
+  | cons op ops ih =>
+    intro w st f hi hw
+    exact ih _ _ _ (inv_exec w st f op hw.1 hi) (exec_world_ok hw)
+
+/-- `session_fresh` — the property at the level of whole pipelines, for EVERY session: a run
+    that goes only through layers cleared since the world last changed (or runs with `no_cache`)
+    executes exactly what an uncached look-up of its own (loader, parent, name) yields at that
+    moment — whichever client object issues it, whatever that object ran before, whatever other
+    requests were served in between. -/
+theorem session_fresh (ops : List LOp) : ∀ (w : World) (st : LState) (f : Flags), Inv w st f → WorldsOk w ops →
+    ∀ x ∈ session w st f ops, x.2.1 = true → x.1.ran = x.2.2 := by
+  induction ops with
+  | nil => intro w st f _ _ x hx; simp [session] at hx
+  | cons op ops ih =>
+    intro w st f hi hw x hx hclean
+    have hrest := ih _ _ _ (inv_exec w st f op hw.1 hi) (exec_world_ok hw)
+    cases op with
+    | run c l r =>
+      simp only [session, List.mem_cons] at hx
+      rcases hx with rfl | hx
+      · simp only [Bool.or_eq_true] at hclean
+        exact run_fresh_of_inv w st f c l r hi hclean
+      · exact hrest x hx hclean
+    | _ => exact hrest x (by simpa [session] using hx) hclean
+
+/-- the initial state satisfies the invariant for any flags -/
+theorem session_fresh_init (w : World) (ops : List LOp) (hw : WorldsOk w ops) :
+    ∀ x ∈ session w LState.init Flags.none ops, x.2.1 = true → x.1.ran = x.2.2 :=
+  session_fresh ops w LState.init Flags.none (inv_init w _) hw
+
+/-- any well-formed state satisfies the invariant when every layer is flagged as possibly stale -/
+theorem inv_all_stale (w : World) (st : LState) (hw : Wf st) :
+    Inv w st { files := true, pipes := fun _ => true } :=
+  ⟨hw, fun h => by simp at h, fun _ h => by simp at h⟩
+
+/-- `clear_all_refreshes` — "a clear makes the next look-up create afresh", end to end: after ANY
+    session (edits, runs, toggles, from the initial state), `pypyr.cache.admin.clear_all()` followed by
+    a run on ANY client object — new or used before — executes the present source. -/
+theorem clear_all_refreshes (w0 : World) (pre : List LOp) (hw : WorldsOk w0 pre) (c l : Nat) (r : Rq) :
+    (run (execAll w0 LState.init pre).1 (exec (execAll w0 LState.init pre).1 (execAll w0 LState.init pre).2 .clearAll).2.1
+      c l r).1.ran = (execAll w0 LState.init pre).1.fresh l r := by
+  have hi := inv_execAll pre w0 LState.init Flags.none (inv_init w0 _) hw
+  have hwok : WorldOk (execAll w0 LState.init pre).1 := by
+    clear hi
+    generalize LState.init = st at *
+    induction pre generalizing w0 st with
+    | nil => exact hw.1
+    | cons op ops ih => exact ih _ (exec_world_ok hw) _
+  have hi2 := inv_exec _ _ _ .clearAll hwok (inv_all_stale _ _ hi.wf)
+  exact run_fresh_of_inv _ _ _ c l r hi2 (Or.inl (by simp [Flags.step, Flags.clean]))
+
+/-- `no_cache_run` — with caching disabled a run executes the present source, creates every item
+    itself (loader, definition, step) and leaves every table as it was. -/
+theorem no_cache_run (w : World) (st : LState) (c l : Nat) (r : Rq) (h : st.noCache = true) :
+    (run w st c l r).1.ran = w.fresh l r ∧ (run w st c l r).1.loaderMade = true ∧
+    (run w st c l r).1.defMade = true ∧ ((run w st c l r).1.ran.isSome → (run w st c l r).1.stepMade = true) ∧
+    (run w st c l r).2.loaders = st.loaders ∧ (run w st c l r).2.pipes = st.pipes ∧
+    (run w st c l r).2.files = st.files ∧ (run w st c l r).2.stepCached = st.stepCached := by
+  have hL := getLoader_loaders_noCache st l h
+  have hnc : (getLoader st l).2.2.noCache = true := by rw [getLoader_noCache]; exact h
+  have hP := getPipeline_noCache w (getLoader st l).2.2 (getLoader st l).1 l r hnc
+  simp only [Stack.run]
+  cases hx : (getPipeline w (getLoader st l).2.2 (getLoader st l).1 l r).1 with
+  | none =>
+    simp only [hP.2.1, hL.1, getLoader_pipes, getLoader_files, getLoader_stepCached, hL.2.2, hP.2.2, ← hP.1, hx]
+    simp
+  | some x =>
+    simp only [getStep, hP.2.1, hnc, hL.1, getLoader_pipes, getLoader_files, getLoader_stepCached, hL.2.2,
+      hP.2.2, ← hP.1, hx]
+    simp
+
+/-- `cached_equals_uncached` — transparency: while the world does not change, every run of every
+    session executes what an uncached look-up yields — caching on or off makes no difference to
+    WHAT runs. -/
+theorem cached_equals_uncached (w : World) (hw : WorldOk w) (ops : List LOp)
+    (hno : ∀ w', LOp.world w' ∉ ops) : ∀ x ∈ session w LState.init Flags.none ops, x.1.ran = x.2.2 := by
+  have key : ∀ (ops : List LOp) (st : LState), (∀ w', LOp.world w' ∉ ops) → Inv w st Flags.none →
+      ∀ x ∈ session w st Flags.none ops, x.1.ran = x.2.2 := by
+    intro ops
+    induction ops with
+    | nil => intro st _ _ x hx; simp [session] at hx
+    | cons op ops ih =>
+      intro st hno hi x hx
+      have hno' : ∀ w', LOp.world w' ∉ ops := fun w' h => hno w' (List.mem_cons_of_mem _ h)
+      have hstep : Flags.none.step op = Flags.none ∧ (exec w st op).1 = w := by
+        cases op with
+        | world w' => exact absurd List.mem_cons_self (hno w')
+        | clearPipes ol => cases ol <;> simp [Flags.step, Flags.none, exec]
+        | _ => simp [Flags.step, Flags.none, exec]
+      have hi' := inv_exec w st Flags.none op hw hi
+      rw [hstep.1, hstep.2] at hi'
+      have hrest := ih _ hno' hi'
+      cases op with
+      | run c l r =>
+        simp only [session, List.mem_cons] at hx
+        rcases hx with rfl | hx
+        · exact run_fresh_of_inv w st Flags.none c l r hi (Or.inl (by simp [Flags.clean, Flags.none]))
+        · rw [hstep.1, hstep.2] at hx; exact hrest x hx
+      | _ =>
+        simp only [session] at hx
+        rw [hstep.1, hstep.2] at hx
+        exact hrest x hx
+  exact key ops LState.init hno (inv_init w _)
+
+/-- where the key's injectivity is used: a world in which all falsy parents mean "no parent"
+    answers requests by their cache key -/
+theorem worldOk_of_falsy (w : World)
+    (h : ∀ l (r r' : Rq), r.pt = false → r'.pt = false → r.name = r'.name → w.fresh l r = w.fresh l r') :
+    WorldOk w := by
+  intro l r r' hk
+  obtain ⟨hn, hpt, hps⟩ := pipelineKey_injective r.pt r'.pt r.ps r'.ps r.name r'.name hk
+  cases hp : r.pt
+  · exact h l r r' hp (hpt ▸ hp) hn
+  · have : r = r' := by
+      cases r; cases r'; simp_all
+    rw [this]
+
+/-- `run_ignores_slots` — the client object is not part of the look-up: whatever a Pipeline object
+    holds from earlier runs (`pipeline_definition`), a run on it observes and leaves behind exactly
+    what a run on a brand-new object does. (The assumption "clients do not retain cached objects",
+    as a theorem about the model of `load_and_run_pipeline`; the correspondence harness checks the
+    real `Pipeline`, `pipelinerunner.run` and the pype step against it with re-used objects.) -/
+theorem run_ignores_slots (w : World) (st : LState) (s' : Nat → Option Ver) (c l : Nat) (r : Rq) :
+    (Stack.run w { st with slot := s' } c l r).1 = (Stack.run w st c l r).1 ∧
+    ∃ s'', (Stack.run w { st with slot := s' } c l r).2 = { (Stack.run w st c l r).2 with slot := s'' } := by
+  simp only [Stack.run, getLoader_slot_irrelevant, getPipeline_slot_irrelevant]
+  split
+  · exact ⟨rfl, _, rfl⟩
+  · rename_i x hx
+    have h1 := getStep_slot_irrelevant (getPipeline w (getLoader st l).2.2 (getLoader st l).1 l r).2.2.2
+      (fun c' => if c' = c then some x else s' c')
+    have h2 := getStep_slot_irrelevant (getPipeline w (getLoader st l).2.2 (getLoader st l).1 l r).2.2.2
+      (fun c' => if c' = c then some x else (getPipeline w (getLoader st l).2.2 (getLoader st l).1 l r).2.2.2.slot c')
+    simp only at h1 h2
+    simp only [h1, h2]
+    exact ⟨trivial, _, rfl⟩
+
+/-! example worlds: the file loader's pipeline `p` is file 0, whose content is version 1, then 2 -/
+def exRq : Rq := { pt := false, ps := "None", name := "p" }
+def exW1 : World := { resolve := fun r => if r.name == "p" then some 0 else none, fileVer := fun _ => 1,
+                      custom := fun _ _ => some 10 }
+def exW2 : World := { exW1 with fileVer := fun _ => 2 }
+
+theorem exW_ok : WorldsOk exW1 [.run 7 0 exRq, .world exW2, .run 7 0 exRq, .clearAll, .run 7 0 exRq] := by
+  have h1 : WorldOk exW1 := worldOk_of_falsy _ (by intro l r r' _ _ hn; simp [World.fresh, exW1, hn])
+  have h2 : WorldOk exW2 := worldOk_of_falsy _ (by intro l r r' _ _ hn; simp [World.fresh, exW2, exW1, hn])
+  refine ⟨h1, ?_⟩
+  intro w' hw'
+  simp at hw'
+  exact hw' ▸ h2
+
+/-- one client object (7): runs version 1; the source changes; the warm caches still serve
+    version 1 (not a clean run); `clear_all()`; the same object now runs version 2. -/
+example : (session exW1 LState.init Flags.none
+      [.run 7 0 exRq, .world exW2, .run 7 0 exRq, .clearAll, .run 7 0 exRq]).map
+        (fun x => (x.1.ran, x.2.1, x.2.2)) =
+    [(some 1, true, some 1), (some 1, false, some 2), (some 2, true, some 2)] := by
+  decide +kernel
+
+/-- `retaining_client_breaks_clear` — NOT pypyr: were the client to re-use the definition it holds
+    (`Stack.runRetaining`), `clear_all_refreshes` would be false: the same session ends with the
+    pre-clear version. The hypothesis "the slot is never read" is essential, not decoration. -/
+theorem retaining_client_breaks_clear :
+    let st := (execAll exW1 LState.init [.run 7 0 exRq, .world exW2, .clearAll]).2
+    (Stack.run exW2 st 7 0 exRq).1.ran = some 2 ∧ (runRetaining exW2 st 7 0 exRq).1.ran = some 1 := by
+  decide +kernel
+
+end Layers
 
 /-! ### `add_sys_path` -/
 
